@@ -18,7 +18,10 @@
 (*                                                                         *)
 (* Kinds (the instance chooses a subset, so that several small instances   *)
 (* cover the whole command set):                                           *)
-(*   no data        NOOP LOGIN LOGOUT UNSELECT CLOSE UNAUTH CREATE         *)
+(*   no data        NOOP LOGIN LOGOUT UNSELECT CLOSE UNAUTH CREATE DELETE  *)
+(*                  RENAME SUBSCRIBE UNSUBSCRIBE SETQUOTA SETMETADATA      *)
+(*   AUTHENTICATE   (PLAIN without SASL-IR) command line, continuation     *)
+(*                  request, credentials, completion; or refused at once   *)
 (*   SELECT         EXISTS FLAGS PERMANENTFLAGS UIDNEXT UIDVALIDITY LIST   *)
 (*   fetch class    FETCH (1:* or 1)  STORE  UIDFETCH (matched by UID)     *)
 (*   expunge class  EXPUNGE UIDEXPUNGE                                     *)
@@ -54,7 +57,7 @@ None == "none"
 AllKinds == {"NOOP", "LOGIN", "SELECT", "UNSELECT", "STATUS", "LIST", "SEARCH", "ESEARCH", "FETCH", "EXPUNGE", "LOGOUT",
              "CLOSE", "UNAUTH", "CREATE", "STORE", "UIDFETCH", "UIDEXPUNGE", "LISTSTATUS", "SORT", "THREAD",
              "CAPABILITY", "ENABLE", "NAMESPACE", "GETQUOTA", "GETQUOTAROOT", "GETMETADATA", "COPY", "APPEND",
-             "MOVE", "IDLE"}
+             "MOVE", "IDLE", "AUTHENTICATE", "DELETE", "RENAME", "SUBSCRIBE", "UNSUBSCRIBE", "SETQUOTA", "SETMETADATA"}
 ASSUME Kinds \subseteq AllKinds /\ Greetings \subseteq {"OK", "PREAUTH"} /\ Greetings # {}
 
 ByName == {"STATUS", "GETQUOTA", "GETQUOTAROOT", "GETMETADATA"}
@@ -71,7 +74,7 @@ ClassOf(k) == CASE k \in FetchClass -> FetchClass [] k \in ExpungeClass -> Expun
                 [] OTHER -> {k}
 Ordered == FetchClass \cup ExpungeClass \cup ListClass \cup {"SEARCH", "SORT", "THREAD", "CAPABILITY", "ENABLE", "NAMESPACE", "MOVE"}
 \* commands that change the connection state (or, IDLE, occupy the connection) are not pipelined
-Exclusive == {"SELECT", "LOGIN", "UNSELECT", "CLOSE", "UNAUTH", "LOGOUT", "IDLE"}
+Exclusive == {"SELECT", "LOGIN", "UNSELECT", "CLOSE", "UNAUTH", "LOGOUT", "IDLE", "AUTHENTICATE"}
 
 VARIABLES greet,    \* the greeting this connection started with
           cstate,   \* "notauth" | "auth" | "selected" | "logout"
@@ -310,16 +313,18 @@ Closed ==
 OkAllowed(i) ==
   LET k == cmds[i].kind IN
   CASE k \in {"NOOP", "LOGOUT", "CAPABILITY"} -> TRUE
-    [] k = "LOGIN" -> cstate = "notauth"
+    [] k \in {"LOGIN", "AUTHENTICATE"} -> cstate = "notauth"
     [] k \in {"SELECT", "STATUS", "LIST", "LISTSTATUS", "CREATE", "UNAUTH", "ENABLE", "NAMESPACE", "GETQUOTA",
-              "GETQUOTAROOT", "GETMETADATA", "APPEND", "IDLE"} -> cstate \in {"auth", "selected"}
+              "GETQUOTAROOT", "GETMETADATA", "APPEND", "IDLE", "DELETE", "RENAME", "SUBSCRIBE", "UNSUBSCRIBE",
+              "SETQUOTA", "SETMETADATA"} -> cstate \in {"auth", "selected"}
     [] OTHER -> cstate = "selected"
 
 \* + idling / + go ahead : the server accepts the IDLE, or the synchronising literal of the APPEND (which the
-\* client then writes, with the rest of the command)
+\* client then writes, with the rest of the command); "+ " (empty challenge): the server asks for the credentials
+\* of an AUTHENTICATE, which the client then writes
 Cont(i) ==
   /\ alive
-  /\ i \in PendingOf("IDLE") \/ (SyncLit /\ i \in PendingOf("APPEND"))
+  /\ i \in PendingOf("IDLE") \/ (SyncLit /\ i \in PendingOf("APPEND")) \/ i \in PendingOf("AUTHENTICATE")
   /\ cmds[i].ph = "" /\ OkAllowed(i)
   /\ cmds' = [cmds EXCEPT ![i].ph = IF cmds[i].kind = "IDLE" THEN "idling" ELSE "sent"]
   /\ Quiet /\ UNCHANGED <<greet, cstate, mbox, alive>>
@@ -341,6 +346,8 @@ Tagged(i, st, code) ==
   \* a synchronising literal: refused instead of the continuation request (NO / BAD, nothing of the literal is ever
   \* sent, everything else goes on), or the command is answered after the literal has been received
   /\ (cmds[i].kind = "APPEND" /\ SyncLit /\ st = "OK") => cmds[i].ph = "sent"
+  \* AUTHENTICATE: refused at once (mechanism not offered) or answered after the credentials have been received
+  /\ (cmds[i].kind = "AUTHENTICATE" /\ st = "OK") => cmds[i].ph = "sent"
   \* BAD means the command was not understood: whether a selected mailbox survives a BAD SELECT is not
   \* settled by the RFC, and a conformant server has no reason to answer BAD to a well-formed SELECT
   /\ ~(st = "BAD" /\ cmds[i].kind = "SELECT" /\ cstate = "selected")
@@ -350,7 +357,7 @@ Tagged(i, st, code) ==
      IN cmds' = [cmds EXCEPT ![i] = [d EXCEPT !.st = st]]
   /\ comp' = {i} /\ uni' = <<>>
   /\ LET k == cmds[i].kind IN
-     CASE k = "LOGIN" /\ st = "OK" -> cstate' = "auth" /\ mbox' = mbox
+     CASE k \in {"LOGIN", "AUTHENTICATE"} /\ st = "OK" -> cstate' = "auth" /\ mbox' = mbox
        [] k = "SELECT" /\ st = "OK" ->
             /\ cstate' = "selected"
             /\ mbox' = [name |-> cmds[i].arg, num |-> cmds[i].acc.num,
